@@ -38,4 +38,4 @@ def string_is_complex(array: np.ndarray, state: dict) -> bool:
 @Complex.contains_op.register
 @array_not_empty
 def complex_contains(array: np.ndarray, state: dict) -> bool:
-    return np.issubdtype(array.dtype, complex)
+    return np.issubdtype(array.dtype, np.complexfloating)
